@@ -3,5 +3,5 @@
 prop=$1; wt=$2
 exec 9>/verif/build/seed.lock
 flock 9
-/verif/lib/seed_process.sh "$prop" "$wt" > /verif/build/logs/seed-$prop.txt 2>&1
-/verif/lib/seed_keep_all.sh "$prop" "$wt" >> /verif/build/logs/seed-$prop.txt 2>&1
+/verif/lib/seed_process.sh "$prop" "$wt" ${@:3} > /verif/build/logs/seed-$prop-$$.txt 2>&1
+/verif/lib/seed_keep_all.sh "$prop" "$wt" >> /verif/build/logs/seed-$prop-$$.txt 2>&1
